@@ -143,6 +143,11 @@ def d2(ck: Check) -> None:
                 arg = n.value.right
             elif isinstance(n, ast.AugAssign) and text(n.target) == A and isinstance(n.op, ast.BitOr):
                 arg = n.value
+            elif isinstance(n, ast.Assign) and text(n.targets[0]) == A and isinstance(n.value, ast.Call) \
+                    and isinstance(n.value.func, ast.Name) and n.value.func.id == "percolate_space":
+                # A = percolate_space(bn, step | A): the percolation keeps every value it is given, so the result is the
+                # accumulated dict together with what this step adds
+                arg = n.value
             if arg is not None:
                 sd_ = fm.single_def(arg.id, fm.cfgn(n)) if isinstance(arg, ast.Name) else None
                 src = sd_[1] if sd_ else arg
